@@ -134,11 +134,122 @@ func tick(q any) {
 	}
 }
 
+
+// FromZero makes Build start from the zero value &T{} of each packet type
+// instead of the value of its New function (a program may fill in a packet
+// it declared with var or new).
+var FromZero bool
+
+func newConnect() *mq.Connect {
+	if FromZero {
+		return &mq.Connect{}
+	}
+	return mq.NewConnect()
+}
+
+func newConnAck() *mq.ConnAck {
+	if FromZero {
+		return &mq.ConnAck{}
+	}
+	return mq.NewConnAck()
+}
+
+func newPublish() *mq.Publish {
+	if FromZero {
+		return &mq.Publish{}
+	}
+	return mq.NewPublish()
+}
+
+func newPubAck() *mq.PubAck {
+	if FromZero {
+		return &mq.PubAck{}
+	}
+	return mq.NewPubAck()
+}
+
+func newPubRec() *mq.PubRec {
+	if FromZero {
+		return &mq.PubRec{}
+	}
+	return mq.NewPubRec()
+}
+
+func newPubRel() *mq.PubRel {
+	if FromZero {
+		return &mq.PubRel{}
+	}
+	return mq.NewPubRel()
+}
+
+func newPubComp() *mq.PubComp {
+	if FromZero {
+		return &mq.PubComp{}
+	}
+	return mq.NewPubComp()
+}
+
+func newSubscribe() *mq.Subscribe {
+	if FromZero {
+		return &mq.Subscribe{}
+	}
+	return mq.NewSubscribe()
+}
+
+func newSubAck() *mq.SubAck {
+	if FromZero {
+		return &mq.SubAck{}
+	}
+	return mq.NewSubAck()
+}
+
+func newUnsubAck() *mq.UnsubAck {
+	if FromZero {
+		return &mq.UnsubAck{}
+	}
+	return mq.NewUnsubAck()
+}
+
+func newUnsubscribe() *mq.Unsubscribe {
+	if FromZero {
+		return &mq.Unsubscribe{}
+	}
+	return mq.NewUnsubscribe()
+}
+
+func newPingReq() *mq.PingReq {
+	if FromZero {
+		return &mq.PingReq{}
+	}
+	return mq.NewPingReq()
+}
+
+func newPingResp() *mq.PingResp {
+	if FromZero {
+		return &mq.PingResp{}
+	}
+	return mq.NewPingResp()
+}
+
+func newDisconnect() *mq.Disconnect {
+	if FromZero {
+		return &mq.Disconnect{}
+	}
+	return mq.NewDisconnect()
+}
+
+func newAuth() *mq.Auth {
+	if FromZero {
+		return &mq.Auth{}
+	}
+	return mq.NewAuth()
+}
+
 // Build constructs the library packet for p.
 func Build(p *spec.Packet) (mq.Packet, error) {
 	switch p.Type {
 	case CONNECT:
-		c := mq.NewConnect()
+		c := newConnect()
 		if string(p.ProtoName) != "MQTT" {
 			c.SetProtocolName(string(p.ProtoName))
 			tick(c)
@@ -193,7 +304,7 @@ func Build(p *spec.Packet) (mq.Packet, error) {
 			}
 		}
 		if w := p.Will; w != nil {
-			wp := mq.NewPublish()
+			wp := newPublish()
 			if w.QoS != 0 {
 				wp.SetQoS(w.QoS)
 				tick(wp)
@@ -231,7 +342,7 @@ func Build(p *spec.Packet) (mq.Packet, error) {
 		return c, nil
 
 	case CONNACK:
-		c := mq.NewConnAck()
+		c := newConnAck()
 		if p.SessionPresent {
 			c.SetSessionPresent(true)
 			tick(c)
@@ -300,7 +411,7 @@ func Build(p *spec.Packet) (mq.Packet, error) {
 		return c, nil
 
 	case PUBLISH:
-		c := mq.NewPublish()
+		c := newPublish()
 		flagSetters := []func(){
 			func() {
 				if p.Flags&8 != 0 {
@@ -369,13 +480,13 @@ func Build(p *spec.Packet) (mq.Packet, error) {
 		var c ack
 		switch p.Type {
 		case PUBACK:
-			c = mq.NewPubAck()
+			c = newPubAck()
 		case PUBREC:
-			c = mq.NewPubRec()
+			c = newPubRec()
 		case PUBREL:
-			c = mq.NewPubRel()
+			c = newPubRel()
 		default:
-			c = mq.NewPubComp()
+			c = newPubComp()
 		}
 		if p.PacketID != 0 {
 			c.SetPacketID(p.PacketID)
@@ -400,7 +511,7 @@ func Build(p *spec.Packet) (mq.Packet, error) {
 		return c, nil
 
 	case SUBSCRIBE:
-		c := mq.NewSubscribe()
+		c := newSubscribe()
 		if p.PacketID != 0 {
 			c.SetPacketID(p.PacketID)
 			tick(c)
@@ -433,9 +544,9 @@ func Build(p *spec.Packet) (mq.Packet, error) {
 		}
 		var c ack
 		if p.Type == SUBACK {
-			c = mq.NewSubAck()
+			c = newSubAck()
 		} else {
-			c = mq.NewUnsubAck()
+			c = newUnsubAck()
 		}
 		if p.PacketID != 0 {
 			c.SetPacketID(p.PacketID)
@@ -460,7 +571,7 @@ func Build(p *spec.Packet) (mq.Packet, error) {
 		return c, nil
 
 	case UNSUBSCRIBE:
-		c := mq.NewUnsubscribe()
+		c := newUnsubscribe()
 		if p.PacketID != 0 {
 			c.SetPacketID(p.PacketID)
 			tick(c)
@@ -481,12 +592,12 @@ func Build(p *spec.Packet) (mq.Packet, error) {
 		return c, nil
 
 	case PINGREQ:
-		return mq.NewPingReq(), nil
+		return newPingReq(), nil
 	case PINGRESP:
-		return mq.NewPingResp(), nil
+		return newPingResp(), nil
 
 	case DISCONNECT:
-		c := mq.NewDisconnect()
+		c := newDisconnect()
 		if p.Reason != 0 {
 			c.SetReasonCode(mq.ReasonCode(p.Reason))
 			tick(c)
@@ -507,7 +618,7 @@ func Build(p *spec.Packet) (mq.Packet, error) {
 		return c, nil
 
 	case AUTH:
-		c := mq.NewAuth()
+		c := newAuth()
 		if p.Reason != 0 {
 			c.SetReasonCode(mq.ReasonCode(p.Reason))
 			tick(c)
